@@ -248,7 +248,7 @@ def replay(g, o, assigns, path):
 
 MANIFEST = {
     "category": "proof",
-    "text": "Unbounded proof (every n, every pivot sequence, object in ANY prior state) on the extracted BKLDLT::compute skeleton: info() is Successful or NumericalIssue after compute(), NumericalIssue exactly when a singular pivot block was met (incl. the trailing 1x1 block and n == 1), the compressed permutation is rebuilt from empty, the pivot record is well formed (negative entries exactly in adjacent pairs, targets in range); solve_inplace's four permuted sweeps are index-safe for every n >= 1 given that record; the wrappers turn a bad status into invalid_argument. On the packed-cursor model of the lower-triangular storage, also for every n: the pivot search and interchanges (find_lambda, find_sigma, pivoting_1x1/2x2, interchange_rows, permutate_mat with the contract bk.compute relies on), the index safety of both elimination kernels, and copy_data's provenance (packed(i,j) = A(i,j) from the lower, conj(A(j,i)) from the upper triangle, written once, shifted once; both storage orders). BOUNDED at concrete n: the real address arithmetic of those kernels and the exact-singularity decision of the elimination kernels. The residual bound is numerical and NOT decided.",
+    "text": "Unbounded proof (every n, every pivot sequence, object in ANY prior state) on the extracted BKLDLT::compute skeleton: info() is Successful or NumericalIssue after compute(), NumericalIssue exactly when a singular pivot block was met (incl. the trailing 1x1 block and n == 1), the compressed permutation is rebuilt from empty, the pivot record is well formed (negative entries exactly in adjacent pairs, targets in range); solve_inplace's four permuted sweeps are index-safe for every n >= 1 given that record; the wrappers turn a bad status into invalid_argument. On the packed-cursor model of the lower-triangular storage, also for every n: the pivot search and interchanges (find_lambda, find_sigma, pivoting_1x1/2x2, interchange_rows, permutate_mat with the contract bk.compute relies on), the index safety of both elimination kernels, and copy_data's provenance (packed(i,j) = A(i,j) from the lower, conj(A(j,i)) from the upper triangle, written once, shifted once; both storage orders). BOUNDED at concrete n: the real address arithmetic of those kernels and the exact-singularity decision of the elimination kernels. The residual bound is numerical and NOT decided. Third session: the VALUES computed by solve_inplace_2x2 and solve_left_2x2 (both branches each) are decided as algebraic identities over the complex field - E x = b resp. [x1 x2] E = [c1 c2] with E = [e11 conj(e21); e21 e22] - by z3 on constraints generated from the header text (machine arithmetic treated as mathematical, divisors assumed non-zero).",
     "note": "kernel contracts stubbed (bounded checks of their bodies listed separately); float values not modelled; Skolem instantiation meta-rule",
-    "technique": 'CBMC dfcc frame + loop contracts with ghost block-kind array and a packed-cursor model on mechanically extracted C (cadical); bounded unwinding for the real packed-storage address arithmetic',
+    "technique": 'CBMC dfcc frame + loop contracts with ghost block-kind array and a packed-cursor model on mechanically extracted C (cadical); bounded unwinding for the real packed-storage address arithmetic; z3 (real closed field) for the 2x2 block-solve identities',
 }
